@@ -9,7 +9,7 @@ import time
 from pathlib import Path
 
 VERIF = Path(__file__).resolve().parent.parent
-EVIDENCE = VERIF / "evidence"
+EVIDENCE = Path(os.environ.get("VERIF_EVIDENCE_DIR", str(VERIF / "evidence")))
 KNOWN = VERIF / "known_findings.json"
 
 HARNESS_ERROR = 3
@@ -112,7 +112,7 @@ class Report:
             "wall_s": round(wall, 2),
             "violations": len(self.violations),
         }
-        EVIDENCE.mkdir(exist_ok=True)
+        EVIDENCE.mkdir(parents=True, exist_ok=True)
         (EVIDENCE / f"{self.prop}.json").write_text(json.dumps(ev, indent=1, default=str) + "\n")
         for k in self.known_hits:
             print(f"KNOWN-FINDING: property={self.prop} {k}")
